@@ -465,6 +465,26 @@ func classifyLoop(p *core.Prog, f *ssa.Function, l *core.Loop, mayBlock map[*ssa
 						errV = e
 					}
 				}
+				// the loop-carried form: `for n == 0 && err == nil { n, err = Read() }`
+				// tests the previous iteration's error (a phi fed by this
+				// Read's error) before it calls Read again
+				carried := false
+				if errV != nil {
+					for _, hi := range h.Instrs {
+						ph, isPhi := hi.(*ssa.Phi)
+						if !isPhi {
+							continue
+						}
+						for _, e := range ph.Edges {
+							if e == errV && factsAt(c.Block()).nilCmp(func(v ssa.Value) bool { return v == ssa.Value(ph) }, true) {
+								carried = true
+							}
+						}
+					}
+				}
+				if carried {
+					continue
+				}
 				for _, latch := range h.Preds {
 					if !l.Blocks[latch] {
 						continue
